@@ -134,6 +134,10 @@ class BatchProcessor:
         # Remove padding if needed
         if self.n_pad > 0:
             return results[: -self.n_pad]
+        if self.n_devices > 1:
+            # Without padding there is no slice to gather the per-device shards, and a
+            # sharded array cannot be passed to pmap again as a broadcast argument
+            results = jax.device_put(results, jax.local_devices()[0])
         return results
 
     @property
